@@ -1,4 +1,5 @@
 import Dicom.Proofs.Provider3
+import Dicom.Proofs.Sched
 import Dicom.Model.Pdu
 /-! # C12 — no byte sequence from the peer can crash or hang the provider (model level)
 
@@ -22,6 +23,13 @@ silent, whenever ARTIM expires and whenever a transport write fails, no undefine
 reached. -/
 theorem peer_cannot_crash_acceptor (σ : List Tick) (hσ : PeerOnly σ) : (run initAcc σ).1.crashed = false :=
   (run_peer σ hσ initAcc initAcc_inv ⟨rfl, rfl, rfl⟩).1
+
+/-- ... stated over bytes: whatever bytes arrive, in whatever segments, with the peer closing anywhere, and
+however the receive path classifies the complete PDUs among them (`cls` is arbitrary: decodable or not, valid
+P-DATA or not), the acceptor's loop does not die -/
+theorem no_byte_stream_crashes_acceptor (cls : Bytes → Rx) (s : List BNet) :
+    (run initAcc (absTicks cls [] s)).1.crashed = false :=
+  peer_cannot_crash_acceptor _ (fun t ht => (absTicks_netOnly cls s [] t ht).1)
 
 /-- the same for the requester, after its user's A-ASSOCIATE request -/
 theorem peer_cannot_crash_requester (σ : List Tick) (hσ : PeerOnly σ) :
